@@ -709,8 +709,12 @@ Section PlainProofs.
       + destruct (presult st); [discriminate|]. intro H; inversion H; subst; clear H. cbn. apply VP_refl.
       + destruct (absorb_ok (fval fr) fr2); [|discriminate]. intro H; inversion H; subst; clear H.
         cbn. apply VP_refl.
+    - (* EArrayBegin *)
+      match goal with |- (if ?b then _ else _) = _ -> _ => destruct b end; [|discriminate].
+      intro H; inversion H; subst; apply ple_refl.
     - (* EArrayChunk *)
-      destruct (negb more && (n =? 0)); [|intro H; inversion H; subst; apply ple_refl].
+      match goal with |- (if ?b then _ else _) = _ -> _ => destruct b end;
+        [|intro H; inversion H; subst; apply ple_refl].
       intro H. apply pfire_mono in H. exact H.
     - (* EArrayData *)
       match goal with |- (if ?b then _ else _) = _ -> _ => destruct b end;
